@@ -6,6 +6,8 @@ CONSTANTS
   PipeCap = 2
   BigChunks = 3
   BreakOutAfterPanic = TRUE
+  DrainAbandoned = TRUE
+  RespawnOnEpipe = TRUE
 CHECK_DEADLOCK FALSE
 SPECIFICATION Spec
 VIEW View
